@@ -193,8 +193,19 @@ fn history(sink: &mut Sink, r: &mut Rng, scratch: &str, bin: &str, with_renames:
     });
 }
 
-/// custom languages sharing one extension: the cache must notice every change of the definition
-/// that the registry lets win (the last one in name order)
+/// One step of a scripted scenario: the language section of the configuration, the target the
+/// invocation is given and the directory (below the project root) it is started in.
+struct Step {
+    langs: &'static str,
+    target: &'static str,
+    cwd: &'static str,
+}
+
+/// Scripted scenarios around what the cache is keyed and validated by: custom languages sharing an
+/// extension (the registry lets the last one in name order win), edits of a language definition
+/// that preserve the concatenation of its markers, partial-tree invocations after a configuration
+/// change, invocations started in a sub-directory.  After every step the same invocation with
+/// and without the cache must agree.
 fn language_history(sink: &mut Sink, scratch: &str, bin: &str, variant: usize) {
     if !sink.want() {
         sink.skip();
@@ -202,39 +213,73 @@ fn language_history(sink: &mut Sink, scratch: &str, bin: &str, variant: usize) {
     }
     let dir = PathBuf::from(scratch).join(format!("l{}", sink.n));
     let _ = std::fs::remove_dir_all(&dir);
-    std::fs::create_dir_all(dir.join("src")).unwrap();
+    std::fs::create_dir_all(dir.join("src/sub")).unwrap();
+    std::fs::create_dir_all(dir.join("mail")).unwrap();
     let p = Proj { dir: dir.clone(), bin: bin.to_string() };
-    std::fs::write(dir.join("src/x.mine"), "# one\n; two\n// three\ncode\n").unwrap();
-    std::fs::write(dir.join("src/y.mine"), "; a\n; b\ncode\ncode\n").unwrap();
-    p.set_mtime("src/x.mine", 1_600_000_000);
-    p.set_mtime("src/y.mine", 1_600_000_000);
-    let cfg = |langs: &[(&str, &str)]| {
-        let mut t = String::from("version = \"2\"\n[content]\nmax_lines = 2\nextensions = [\"mine\"]\n");
-        for (name, marker) in langs {
-            t += &format!("[languages.{name}]\nextensions = [\"mine\"]\nsingle_line_comments = [\"{marker}\"]\n");
-        }
-        std::fs::write(dir.join(".sloc-guard.toml"), t).unwrap();
-    };
-    // each step is a configuration; after each, a cached and an uncached run must agree
-    let steps: Vec<Vec<(&str, &str)>> = match variant {
-        0 => vec![vec![("Aaa", "#"), ("Zzz", ";")], vec![("Aaa", "#"), ("Zzz", "//")], vec![("Aaa", "#"), ("Zzz", "#")]],
-        1 => vec![vec![("Aaa", "#"), ("Zzz", ";")], vec![("Aaa", "#"), ("Bbb", ";"), ("Zzz", "//")], vec![("Aaa", ";"), ("Bbb", "#")]],
-        _ => vec![vec![("Mmm", ";")], vec![("Mmm", ";"), ("Nnn", "#")], vec![("Lll", "//"), ("Mmm", ";")], vec![("Lll", "//"), ("Mmm", "#")]],
+    // two pairs of files have the same name relative to different directories, the same size
+    // and the same modification time, and different counts
+    let files: &[(&str, &str)] = &[
+        ("src/x.mine", "# one\n; two\n// three\ncode\n"),
+        ("src/y.mine", "; a\n; b\ncode\ncode\n"),
+        ("src/z.mine", "# a\n// b\n#/ c\n/ d\n# e\ncode\n"),
+        ("mail/b.mine", "; x\n# y\ncode\n"),
+        ("a.mine", "code 1;\ncode 2;\n"),
+        ("src/a.mine", "# aaaaa\n# bbbbb\n"),
+        ("src/sub/a.mine", "; aaaaa\n# bbbbb\n"),
+        ("b.rs", "let a = 1;\nlet b = 2;\n"),
+        ("src/b.rs", "// aaaaaaa\n// bbbbbbb\n"),
+        ("src/sub/b.rs", "let a = 1;\n// bbbbbbb\n"),
+    ];
+    for (f, c) in files {
+        std::fs::write(dir.join(f), c).unwrap();
+        p.set_mtime(f, 1_600_000_000);
+    }
+    let one = |name: &str, m: &str| format!("[languages.{name}]\nextensions = [\"mine\"]\nsingle_line_comments = [{m}]\n");
+    let l = |parts: &[(&str, &str)]| -> &'static str { Box::leak(parts.iter().map(|(n, m)| one(n, m)).collect::<String>().into_boxed_str()) };
+    let all = |langs: &'static str| Step { langs, target: ".", cwd: "" };
+    let steps: Vec<Step> = match variant {
+        0 => vec![all(l(&[("Aaa", "\"#\""), ("Zzz", "\";\"")])), all(l(&[("Aaa", "\"#\""), ("Zzz", "\"//\"")])), all(l(&[("Aaa", "\"#\""), ("Zzz", "\"#\"")]))],
+        1 => vec![all(l(&[("Aaa", "\"#\""), ("Zzz", "\";\"")])), all(l(&[("Aaa", "\"#\""), ("Bbb", "\";\""), ("Zzz", "\"//\"")])), all(l(&[("Aaa", "\";\""), ("Bbb", "\"#\"")]))],
+        2 => vec![all(l(&[("Mmm", "\";\"")])), all(l(&[("Mmm", "\";\""), ("Nnn", "\"#\"")])), all(l(&[("Lll", "\"//\""), ("Mmm", "\";\"")])), all(l(&[("Lll", "\"//\""), ("Mmm", "\"#\"")]))],
+        // the marker lists change, their concatenation does not
+        3 => vec![all(l(&[("Mine", "\"#\", \"//\"")])), all(l(&[("Mine", "\"#/\", \"/\"")])), all(l(&[("Mine", "\"#\", \"/\", \"/\"")]))],
+        4 => vec![
+            all("[languages.Mine]\nextensions = [\"mine\"]\nsingle_line_comments = [\"#\", \";\"]\n"),
+            all("[languages.Mine]\nextensions = [\"mine\"]\nmulti_line_comments = [[\"#\", \";\"]]\n"),
+            all("[languages.Mine]\nextensions = [\"mine\"]\nsingle_line_comments = [\"#;\"]\n"),
+        ],
+        // a configuration change, then an invocation that covers part of the tree, then the whole tree
+        5 => vec![all(l(&[("Mine", "\"#\"")])), Step { langs: l(&[("Mine", "\";\"")]), target: "src", cwd: "" }, all(l(&[("Mine", "\";\"")]))],
+        6 => vec![all(l(&[("Mine", "\"#\"")])), Step { langs: l(&[("Mine", "\";\"")]), target: "mail", cwd: "" }, Step { langs: l(&[("Mine", "\";\"")]), target: "src", cwd: "" }, all(l(&[("Mine", "\";\"")]))],
+        // the same project entered from its sub-directories (the configuration is discovered upwards)
+        7 => vec![all(l(&[("Mine", "\"#\"")])), Step { langs: l(&[("Mine", "\"#\"")]), target: ".", cwd: "src" }, Step { langs: l(&[("Mine", "\"#\"")]), target: ".", cwd: "src/sub" }, all(l(&[("Mine", "\"#\"")]))],
+        _ => vec![Step { langs: l(&[("Mine", "\"#\"")]), target: ".", cwd: "src/sub" }, Step { langs: l(&[("Mine", "\"#\"")]), target: "sub", cwd: "src" }, all(l(&[("Mine", "\"#\"")])), Step { langs: l(&[("Mine", "\"#\"")]), target: "..", cwd: "src" }],
     };
     let mut pred = None;
     let now = 1_700_000_000u64;
-    for (k, langs) in steps.iter().enumerate() {
-        cfg(langs);
+    for (k, st) in steps.iter().enumerate() {
+        std::fs::write(dir.join(".sloc-guard.toml"), format!("version = \"2\"\n[content]\nmax_lines = 2\nextensions = [\"mine\", \"rs\"]\n{}", st.langs)).unwrap();
+        let sub = Proj { dir: dir.join(st.cwd), bin: bin.to_string() };
         for cmd in 0..2 {
-            let (rc_u, unc, _) = invoke(&p, now + k as u64, cmd, false);
-            let (rc_c, cac, err) = invoke(&p, now + k as u64, cmd, true);
+            let run = |cached: bool| {
+                let mut args: Vec<&str> = if cmd == 0 { vec!["check", "--format", "json"] } else { vec!["stats", "files", "--format", "json"] };
+                if !cached {
+                    args.push("--no-sloc-cache");
+                }
+                args.push(st.target);
+                let (rc, out, err) = sub.run(now + k as u64, &args);
+                (rc, per_file(&out, cmd), err)
+            };
+            let (rc_u, unc, _) = run(false);
+            let (rc_c, cac, err) = run(true);
             if unc != cac || rc_u != rc_c {
-                pred = pred.or(Some(format!("after configuration step {k} ({langs:?}) with the cache: {cac:?} (exit {rc_c}); with --no-sloc-cache: {unc:?} (exit {rc_u}) {}", err.lines().next().unwrap_or(""))));
+                pred = pred.or(Some(format!("step {k} (`{} {}` started in ./{}, languages {:?}): with the cache {cac:?} (exit {rc_c}); with --no-sloc-cache {unc:?} (exit {rc_u}) {}", if cmd == 0 { "check" } else { "stats files" }, st.target, st.cwd, st.langs.replace('\n', " "), err.lines().next().unwrap_or(""))));
             }
         }
     }
     let _ = std::fs::remove_dir_all(&dir);
-    sink.push(Case { request: "noop".into(), implementation: "-".into(), pred: pred.map_or_else(|| "ok".to_string(), |p| format!("FAIL {p}")), tag: format!("languages/shared-extension/{variant}") });
+    let kind = match variant { 0..=2 => "shared-extension", 3 | 4 => "marker-concatenation", 5 | 6 => "partial-tree-after-config-change", _ => "started-in-subdirectory" };
+    sink.push(Case { request: "noop".into(), implementation: "-".into(), pred: pred.map_or_else(|| "ok".to_string(), |p| format!("FAIL {p}")), tag: format!("languages/{kind}/{variant}") });
 }
 
 /// every truncation point of a real cache file (and a few byte flips): the next run ignores it
@@ -313,7 +358,7 @@ pub fn run(tier: Tier, seed: u64, out: &str) {
         for sc in &scripts {
             history(&mut sink, &mut r, &scratch, &bin, true, Some(sc));
         }
-        for v in 0..3 {
+        for v in 0..9 {
             language_history(&mut sink, &scratch, &bin, v);
         }
         for i in 0..tier.scale(250, 10_000) {
